@@ -272,3 +272,37 @@ func trunc(s string) string {
 	}
 	return s
 }
+
+// DiffKeys returns the collection keys whose content differs between a and b,
+// plus "<hooks>" / "<chans>" when those differ.
+func DiffKeys(a, b *State) []string {
+	var out []string
+	seen := map[string]bool{}
+	for k := range a.Cols {
+		seen[k] = true
+	}
+	for k := range b.Cols {
+		seen[k] = true
+	}
+	for k := range seen {
+		ja, _ := json.Marshal(a.Cols[k])
+		jb, _ := json.Marshal(b.Cols[k])
+		_, ina := a.Cols[k]
+		_, inb := b.Cols[k]
+		if ina != inb || string(ja) != string(jb) {
+			out = append(out, k)
+		}
+	}
+	ha, _ := json.Marshal(a.Hooks)
+	hb, _ := json.Marshal(b.Hooks)
+	if string(ha) != string(hb) {
+		out = append(out, "<hooks>")
+	}
+	ca, _ := json.Marshal(a.Chans)
+	cb, _ := json.Marshal(b.Chans)
+	if string(ca) != string(cb) {
+		out = append(out, "<chans>")
+	}
+	sort.Strings(out)
+	return out
+}
